@@ -324,6 +324,33 @@ def r1_invariants(db, rep):
                 rep.ok("R1-size-balance", key, cls, "%d mutation(s) of %s each adjust %s by one" % (n, cont, setter))
 
 
+def narrowed(f, e, need, depth=0):
+    """(bits, how) when the arithmetic value e passes through an explicit cast or a local variable narrower than `need`
+    bits on its way; None otherwise.  Plain operands (a uint8_t length read from an element, a constant) are not
+    narrowings: only a COMPUTED value (a sum / product) squeezed into fewer bits loses information."""
+    e0 = e
+    while e0["k"] in ("ImplicitCastExpr", "ParenExpr", "ExprWithCleanups", "MaterializeTemporaryExpr") and e0.get("c"):
+        e0 = e0["c"][0]
+
+    def computed(x):
+        return any(y["k"] == "BinaryOperator" and y.get("op") in ("+", "-", "*", "<<") for y in facts.walk(x))
+    if e0["k"] in ("CStyleCastExpr", "CXXStaticCastExpr", "CXXFunctionalCastExpr") and e0.get("c"):
+        t = facts.ty(f, e0) or {}
+        if t.get("k") == "int" and (t.get("w") or 64) < need and computed(e0["c"][0]):
+            return (t["w"], "cast to %s at line %s" % (t.get("s"), e0.get("l")))
+        return narrowed(f, e0["c"][0], need, depth)
+    if e0["k"] == "BinaryOperator" and e0.get("op") in ("+", "-", "*"):
+        return narrowed(f, e0["c"][0], need, depth) or narrowed(f, e0["c"][1], need, depth)
+    if e0["k"] == "DeclRefExpr" and e0.get("var") and not e0.get("parm") and depth < 3:
+        sa = facts.single_assign(f)
+        if e0["var"] in sa:
+            t = facts.ty(f, e0) or {}
+            if t.get("k") == "int" and (t.get("w") or 64) < need and computed(sa[e0["var"]]):
+                return (t["w"], "kept in the %s local `%s`" % (t.get("s"), e0.get("name")))
+            return narrowed(f, sa[e0["var"]], need, depth + 1)
+    return None
+
+
 def r2(db, rep, rule):
     for rec, cont, cnt in CACHE_PAIRS:
         r = db.records.get(rec)
@@ -365,6 +392,27 @@ def r2(db, rep, rule):
                           % (cnt, wbits, cont, (1 << wbits) - 1 if wbits else 0))
         else:
             rep.ok(rule, "%s::%s:counter-width" % (short, cnt), site_c, "%d-bit counter (%s)" % (wbits, "header_size() returns 32 bits" if need == 32 else lim[2]))
+        # ... and what is added to / subtracted from it is not cut down on the way: a per-element size computed in (or cast
+        # to, or kept in a local of) fewer bits than the counter needs wraps for one big element although the counter is wide
+        # enough - the same under-report
+        nadj = 0
+        for g_ in sorted(db.functions.values(), key=lambda x_: x_["id"]):
+            if g_.get("rec") != rec or not g_.get("body"):
+                continue
+            for x_ in facts.fn_nodes(g_):
+                if x_["k"] != "CompoundAssignOperator" or x_.get("op") not in ("+=", "-=") or \
+                        facts.strip_all(x_["c"][0]).get("member") != cnt:
+                    continue
+                nadj += 1
+                nw = narrowed(g_, x_["c"][1], need)
+                key_ = "%s::%s:adjust-width#%d" % (short, g_["qual"].split("::")[-1], nadj)
+                if nw:
+                    rep.violation(rule, key_, facts.loc(g_, x_),
+                                  "`%s %s ...`: the size of the element is truncated to %d bits (%s) before it adjusts the %d-bit counter: for an "
+                                  "element of %d bytes or more the counter moves by the wrong amount, header_size() under-reports and the "
+                                  "serialiser writes past what was announced" % (cnt, x_["op"], nw[0], nw[1], wbits, 1 << nw[0]))
+                else:
+                    rep.ok(rule, key_, facts.loc(g_, x_), "adjusted by a value computed in at least %d bits" % need)
         for verdict, key, site, text in cp.results:
             k = "%s::%s" % (short, key)
             getattr(rep, verdict)(rule, k, site, text)
